@@ -13,11 +13,11 @@ def registry_ok(G_plugins, scope):
 
 
 def member(lst, x):
-    return exists(0, len(lst), lambda j: lst[j] is x)
+    return exists(0, len(lst), lambda j: lst[j] == x)
 
 
 def nodup(lst):
-    return forall(0, len(lst), lambda a: forall(0, len(lst), lambda b: implies(a != b, lst[a] is not lst[b])))
+    return forall(0, len(lst), lambda a: forall(0, len(lst), lambda b: implies(a != b, lst[a] != lst[b])))
 
 
 @contract('functions.add_plugin')
@@ -25,8 +25,8 @@ class add_plugin_c:
     """'Adds a plugin for the given scope. Raises TypeError if scope is not str or if plugin is not
     callable.'  C19: afterwards the scope's entries are the old ones plus the plugin, no duplicate."""
     params = {'scope': 'str', 'plugin': 'opaque'}
-    globals = {'_plugins': 'dict'}
-    modifies = ()
+    globals = {'_plugins': 'dict[list]'}
+    modifies = ('G_plugins',)
 
     def requires(scope, plugin, G_plugins):
         return registry_ok(G_plugins, scope) + [('nodup', implies(scope in G_plugins, lambda: nodup(G_plugins[scope])))]
@@ -41,7 +41,7 @@ class add_plugin_c:
                                                    lambda j: member(G_plugins[scope], old.G_plugins[scope][j])))),
             ('nothing-else-added', implies(raised is None and scope in old.G_plugins,
                                            lambda: forall(0, len(G_plugins[scope]),
-                                                          lambda j: G_plugins[scope][j] is plugin
+                                                          lambda j: G_plugins[scope][j] == plugin
                                                           or member(old.G_plugins[scope], G_plugins[scope][j])))),
             ('other-scopes', dict_same_except(old.G_plugins, G_plugins, scope)),
         ]
@@ -52,8 +52,8 @@ class remove_plugin_c:
     """'Removes a plugin for the given scope.'  C19: afterwards the plugin is not active in the scope
     (given no duplicates), every other entry is."""
     params = {'scope': 'str', 'plugin': 'opaque'}
-    globals = {'_plugins': 'dict'}
-    modifies = ()
+    globals = {'_plugins': 'dict[list]'}
+    modifies = ('G_plugins',)
 
     def requires(scope, plugin, G_plugins):
         return registry_ok(G_plugins, scope) + [('nodup', implies(scope in G_plugins, lambda: nodup(G_plugins[scope])))]
@@ -62,11 +62,12 @@ class remove_plugin_c:
         return [
             ('total', raised is None),
             ('absent', implies(scope in G_plugins, lambda: not member(G_plugins[scope], plugin))),
-            ('others-kept', implies(scope in old.G_plugins,
+            ('others-kept', implies(scope in old.G_plugins and scope in G_plugins,
                                     lambda: forall(0, len(old.G_plugins[scope]),
-                                                   lambda j: old.G_plugins[scope][j] is plugin
+                                                   lambda j: old.G_plugins[scope][j] == plugin
                                                    or member(G_plugins[scope], old.G_plugins[scope][j])))),
-            ('nothing-added', implies(scope in old.G_plugins,
+            ('scope-kept', (scope in G_plugins) == (scope in old.G_plugins)),
+            ('nothing-added', implies(scope in old.G_plugins and scope in G_plugins,
                                       lambda: forall(0, len(G_plugins[scope]),
                                                      lambda j: member(old.G_plugins[scope], G_plugins[scope][j])))),
             ('other-scopes', dict_same_except(old.G_plugins, G_plugins, scope)),
@@ -77,8 +78,8 @@ class remove_plugin_c:
 class reset_plugins_c:
     """'Removes all plugins for the given scope.'  C19: afterwards no entry of the scope is active."""
     params = {'scope': 'str'}
-    globals = {'_plugins': 'dict'}
-    modifies = ()
+    globals = {'_plugins': 'dict[list]'}
+    modifies = ('G_plugins',)
 
     def requires(scope, G_plugins):
         return registry_ok(G_plugins, scope)
@@ -96,13 +97,13 @@ class add_contract_c:
     """'Add a contract to be loaded on each script execution. Raises TypeError if contract_id is not
     bytes. Calls _check_contract ...'  C19: the map afterwards is the old map with this one entry."""
     params = {'contract_id': 'bytes', 'contract': 'opaque'}
-    globals = {'_contracts': 'dict', '_contract_interfaces': ('const', None)}
-    modifies = ()
+    globals = {'_contracts': 'dict'}
+    modifies = ('G_contracts',)
     raises = (ScriptExecutionError,)
 
     def ensures(old, contract_id, contract, result, raised, G_contracts):
         return [
-            ('stored', implies(raised is None, lambda: contract_id in G_contracts and G_contracts[contract_id] is contract)),
+            ('stored', implies(raised is None, lambda: contract_id in G_contracts and G_contracts[contract_id] == contract)),
             ('others', dict_same_except(old.G_contracts, G_contracts, contract_id)),
             ('unchanged-on-error', implies(raised is not None, dict_same(old.G_contracts, G_contracts))),
         ]
@@ -113,7 +114,7 @@ class remove_contract_c:
     """'Remove a loaded contract to prevent it from being included on script execution.'"""
     params = {'contract_id': 'bytes'}
     globals = {'_contracts': 'dict'}
-    modifies = ()
+    modifies = ('G_contracts',)
 
     def ensures(old, contract_id, result, raised, G_contracts):
         return [
@@ -121,3 +122,60 @@ class remove_contract_c:
             ('absent', contract_id not in G_contracts),
             ('others', dict_same_except(old.G_contracts, G_contracts, contract_id)),
         ]
+
+
+@contract('functions._check_contract')
+class _check_contract_c:
+    """'Check a contract against required interfaces. Raise ScriptExecutionError if it does not match
+    at least one.'  (the interface registry is a concrete dict of Protocol classes; matching is an
+    opaque isinstance test)"""
+    params = {'contract': 'opaque'}
+    modifies = ()
+    raises = (ScriptExecutionError,)
+    trusted = True
+
+
+from tapescript.functions import add_plugin, remove_plugin, reset_plugins   # noqa: E402
+
+
+@contract('functions.add_signature_extension')
+class add_signature_extension_c:
+    """'Adds a signature extension plugin ...' == add_plugin('signature_extensions', plugin)"""
+    params = {'plugin': 'opaque'}
+    globals = {'_plugins': 'dict[list]'}
+    modifies = ('G_plugins',)
+    compare = ('G_plugins',)
+
+    def requires(plugin, G_plugins):
+        return add_plugin_c.requires('signature_extensions', plugin, G_plugins)
+
+    def spec(plugin):
+        add_plugin('signature_extensions', plugin)
+
+
+@contract('functions.remove_signature_extension')
+class remove_signature_extension_c:
+    params = {'plugin': 'opaque'}
+    globals = {'_plugins': 'dict[list]'}
+    modifies = ('G_plugins',)
+    compare = ('G_plugins',)
+
+    def requires(plugin, G_plugins):
+        return remove_plugin_c.requires('signature_extensions', plugin, G_plugins)
+
+    def spec(plugin):
+        remove_plugin('signature_extensions', plugin)
+
+
+@contract('functions.reset_signature_extensions')
+class reset_signature_extensions_c:
+    params = {}
+    globals = {'_plugins': 'dict[list]'}
+    modifies = ('G_plugins',)
+    compare = ('G_plugins',)
+
+    def requires(G_plugins):
+        return reset_plugins_c.requires('signature_extensions', G_plugins)
+
+    def spec():
+        reset_plugins('signature_extensions')
